@@ -329,6 +329,8 @@ func applyDocEdit(doc *JV, op Op) bool {
 				return true
 			}
 		}
+	case "transplant":
+		return applyTransplant(doc, op.I, op.J, op.N)
 	case "valuedate":
 		// the tax applies on another day than the document is issued; sometimes the issue date
 		// is left to the clock
@@ -466,7 +468,7 @@ func applyDocEdit(doc *JV, op Op) bool {
 	return false
 }
 
-var editKinds = []string{"qty", "price", "rmline", "dupline", "note", "rounding", "custname", "code", "breakdown", "linedisc", "linecharge", "docdisc", "advances", "codeweird", "addrweird", "taxidweird", "amountprec", "mixrates", "mixrates", "rmdefaulted", "sloppy", "sloppy", "sloppy", "inboxweird", "scenario", "scenario", "fx", "valuedate"}
+var editKinds = []string{"qty", "price", "rmline", "dupline", "note", "rounding", "custname", "code", "breakdown", "linedisc", "linecharge", "docdisc", "advances", "codeweird", "addrweird", "taxidweird", "amountprec", "mixrates", "mixrates", "rmdefaulted", "sloppy", "sloppy", "sloppy", "inboxweird", "scenario", "scenario", "fx", "valuedate", "transplant", "transplant"}
 
 func genEdit(r *rand.Rand, id int) Op {
 	k := Pick(r, editKinds)
@@ -498,6 +500,8 @@ func genEdit(r *rand.Rand, id int) Op {
 		op.S2 = Pick(r, []string{"type", "currency", "$regime", "type", "tax"})
 	case "sloppy":
 		op.I, op.J = int64(r.IntN(1<<16)), int64(r.IntN(7))
+	case "transplant":
+		op.I, op.J, op.N = int64(r.IntN(1<<12)), int64(r.IntN(1<<12)), int64(r.IntN(4))
 	case "valuedate":
 		op.S2 = Pick(r, []string{"2012-08-31", "2020-12-31", "2010-06-30", "2023-12-31", "2031-01-01"})
 	case "fx":
